@@ -15,6 +15,7 @@ HERE = os.path.dirname(os.path.abspath(__file__))
 VERIF = os.path.dirname(HERE)
 PY = "/venv/bin/python"
 SHM = os.environ.get("SIMBOX_SHM", "/dev/shm/simbox")
+EXEC_WALL_S = float(os.environ.get("SIMBOX_EXEC_WALL_S", "180"))
 
 
 class HarnessError(RuntimeError):
@@ -29,7 +30,12 @@ class _Zygote:
         self.last_used = 0
         r1, w1 = os.pipe()  # coordinator -> zygote
         r2, w2 = os.pipe()  # zygote -> coordinator
-        env = dict(os.environ)
+        # a fixed, minimal environment: heap layout (hence id()-dependent behaviour) must not vary with the caller's
+        env = {"PATH": "/venv/bin:/usr/local/bin:/usr/bin:/bin", "HOME": "/root", "LANG": "C.UTF-8", "LC_ALL": "C.UTF-8"}
+        for k in ("SIMBOX_EXEC_WALL_S", "SIMBOX_SEMGREP_MEMO"):
+            if k in os.environ:
+                env[k] = os.environ[k]
+        env["PYTHONDONTWRITEBYTECODE"] = "1"
         env["PYTHONHASHSEED"] = str(hashseed)
         env["VERIF_REPO"] = repo
         env["SIMBOX_SHM"] = SHM
@@ -41,7 +47,7 @@ class _Zygote:
         self.proc = subprocess.Popen(
             cmd, env=env, pass_fds=(r1, w2), stdin=subprocess.DEVNULL,
             stdout=subprocess.DEVNULL, stderr=open(os.path.join(SHM, "zygote-stderr.log"), "ab"),
-            cwd="/",
+            cwd="/", start_new_session=True,
         )
         os.close(r1)
         os.close(w2)
@@ -61,6 +67,12 @@ class _Zygote:
         try:
             self.tx.write(json.dumps({"spec_path": sp}) + "\n")
             self.tx.flush()
+            import select
+
+            ready, _, _ = select.select([self.rx], [], [], EXEC_WALL_S)
+            if not ready:
+                self.kill()
+                raise HarnessError("timeout", f"no reply within {EXEC_WALL_S}s")
             line = self.rx.readline()
             if not line:
                 raise HarnessError("zygote-died", "no reply")
@@ -77,6 +89,14 @@ class _Zygote:
             except OSError:
                 pass
 
+    def kill(self):
+        import signal
+
+        try:
+            os.killpg(self.proc.pid, signal.SIGKILL)
+        except OSError:
+            pass
+
     def close(self):
         try:
             self.tx.write(json.dumps({"quit": True}) + "\n")
@@ -86,7 +106,7 @@ class _Zygote:
         try:
             self.proc.wait(3)
         except Exception:
-            self.proc.kill()
+            self.kill()
         for f in (self.tx, self.rx):
             try:
                 f.close()
